@@ -1,6 +1,10 @@
 package algo
 
-import "github.com/junegunn/fzf/src/zzv"
+import (
+	"unicode"
+
+	"github.com/junegunn/fzf/src/zzv"
+)
 
 func init() {
 	zzHarnesses["zzH_C02_fuzzy"] = zzH_C02_fuzzy
@@ -36,5 +40,108 @@ func zzH_C02_fuzzy() {
 		zzv.Reach("nomatch")
 		zzv.Assert("complete", !zzSubseq(text, pat, 0, n, cs, norm))
 		zzv.Assert("nomatch-shape", res.Start == -1 && res.End == -1 && res.Score == 0 && pos == nil)
+	}
+}
+
+func init() {
+	zzHarnesses["zzH_C02_exact"] = zzH_C02_exact
+}
+
+func zzIsBoundaryClass(r rune) bool { return charClassOf(r) <= charDelimiter }
+
+func zzLeadingSpaces(text []rune) int {
+	n := 0
+	for n < len(text) && unicode.IsSpace(text[n]) {
+		n++
+	}
+	return n
+}
+
+func zzTrailingSpaces(text []rune) int {
+	n := 0
+	for n < len(text) && unicode.IsSpace(text[len(text)-1-n]) {
+		n++
+	}
+	return n
+}
+
+// zzAnchorOK: does an occurrence at `at` satisfy the anchor of this term kind?
+// kind 0 exact, 1 boundary, 2 prefix, 3 suffix, 4 equal.
+func zzAnchorOK(kind int, text, pat []rune, at int) bool {
+	n, m := len(text), len(pat)
+	switch kind {
+	case 0:
+		return true
+	case 1:
+		left := at == 0 || zzIsBoundaryClass(text[at-1])
+		right := at+m == n || zzIsBoundaryClass(text[at+m])
+		return left && right
+	case 2:
+		lead := 0
+		if !unicode.IsSpace(pat[0]) {
+			lead = zzLeadingSpaces(text)
+		}
+		return at == lead
+	case 3:
+		trail := 0
+		if !unicode.IsSpace(pat[m-1]) {
+			trail = zzTrailingSpaces(text)
+		}
+		return at+m == n-trail
+	}
+	lead, trail := 0, 0
+	if !unicode.IsSpace(pat[0]) {
+		lead = zzLeadingSpaces(text)
+	}
+	if !unicode.IsSpace(pat[m-1]) {
+		trail = zzTrailingSpaces(text)
+	}
+	return at == lead && at+m == n-trail
+}
+
+func zzExactFn(kind int) Algo {
+	switch kind {
+	case 0:
+		return ExactMatchNaive
+	case 1:
+		return ExactMatchBoundary
+	case 2:
+		return PrefixMatch
+	case 3:
+		return SuffixMatch
+	}
+	return EqualMatch
+}
+
+// H2 for the exact family: the range is a contiguous occurrence satisfying the anchor;
+// no match means no such occurrence exists anywhere.
+func zzH_C02_exact() {
+	zzInit()
+	cs, norm, fwd, withPos := zzv.CfgBool("cs"), zzv.CfgBool("norm"), zzv.CfgBool("fwd"), zzv.CfgBool("pos")
+	kind := zzv.CfgInt("kind")
+	n := zzv.Choose(zzv.CfgInt("nmin"), zzv.CfgInt("nmax"))
+	m := zzv.Choose(zzv.CfgInt("mmin"), zzv.CfgInt("mmax"))
+	chars, text := zzText(n, zzv.CfgInt("rep"))
+	pat := zzPattern(m, zzv.CfgInt("pk"), cs, norm)
+	slab := zzSlab(zzv.CfgInt("slab"))
+	res, pos := zzExactFn(kind)(cs, norm, fwd, &chars, pat, withPos, slab)
+	zzv.Reach("called")
+	zzObserveResult(res, pos)
+	zzv.Assert("no-positions", pos == nil)
+	if res.Start >= 0 {
+		zzv.Reach("matched")
+		zzv.Assert("range", 0 <= res.Start && res.End == res.Start+m && res.End <= n)
+		zzv.Assert("occurrence", zzOccursAt(text, pat, res.Start, cs, norm))
+		zzv.Assert("anchor", zzAnchorOK(kind, text, pat, res.Start))
+	} else {
+		zzv.Reach("nomatch")
+		any := false
+		for at := 0; at+m <= n; at++ {
+			if zzOccursAt(text, pat, at, cs, norm) && zzAnchorOK(kind, text, pat, at) {
+				any = true
+			}
+		}
+		zzv.Assert("complete", !any)
+		zzv.Assert("nomatch-shape", res.Start == -1 && res.End == -1 && res.Score == 0)
 	}
 }
